@@ -91,9 +91,48 @@ func (vc *VC) readerRead(st *State, r Val, p Val) Val {
 	return Val{K: KTuple, Fs: []Val{IntV(n, tInt), IntV(err, tErr)}}
 }
 
+// readerView: a *T declared as a view of one of its io.Reader fields reads from that field's stream and counts the bytes.
+func (vc *VC) readerView(st *State, r Val) (Val, *Addr) {
+	if r.Dyn == nil {
+		return r, nil
+	}
+	et := derefType(r.Dyn)
+	n, ok := et.(*types.Named)
+	if !ok || n.Obj().Pkg() == nil {
+		return r, nil
+	}
+	v, ok := vc.W.DB.Views[n.Obj().Pkg().Path()+"."+n.Obj().Name()]
+	if !ok {
+		return r, nil
+	}
+	stt := et.Underlying().(*types.Struct)
+	var inner Val
+	var ctr *Addr
+	for i := 0; i < stt.NumFields(); i++ {
+		if stt.Field(i).Name() == v[0] {
+			inner = vc.load(st, &Addr{Kind: AField, Obj: r.S, Root: et, Path: []int{i}, T: stt.Field(i).Type()})
+		}
+		if stt.Field(i).Name() == v[1] {
+			ctr = &Addr{Kind: AField, Obj: r.S, Root: et, Path: []int{i}, T: stt.Field(i).Type()}
+		}
+	}
+	vc.usedCons["readerview "+n.Obj().Pkg().Path()+"."+n.Obj().Name()] = true
+	return inner, ctr
+}
+
+func (vc *VC) bumpCounter(st *State, ctr *Addr, n string) {
+	if ctr == nil {
+		return
+	}
+	old := vc.load(st, ctr)
+	vc.store(st, ctr, IntV(vc.name("ctr", "Int", wrap1(vc, Add(old.S, n), ctr.T)), ctr.T))
+}
+
 func (vc *VC) readFull(st *State, r Val, buf Val) Val {
 	vc.streamDecls()
 	vc.nilCheck(st, r, "io.ReadFull on nil reader")
+	r, ctr := vc.readerView(st, r)
+	defer func() {}()
 	pos := vc.name("pos", "Int", vc.streamPos(st, r.S))
 	L := app("streamLen", r.S)
 	st.assume(vc, And(Le("0", pos), Le(pos, L)))
@@ -111,6 +150,7 @@ func (vc *VC) readFull(st *State, r Val, buf Val) Val {
 	st.assume(vc, Or(Eq(err, "0"), Eq(err, eof), Eq(err, ueof), And(Gt(err, "0"), Le(err, Add(st.alloc, "1")))))
 	st.alloc = vc.name("alloc", "Int", Add(st.alloc, "1"))
 	vc.fillFromStream(st, r.S, pos, buf, n)
+	vc.bumpCounter(st, ctr, n)
 	return Val{K: KTuple, Fs: []Val{IntV(n, tInt), IntV(err, tErr)}}
 }
 
@@ -155,6 +195,8 @@ func (vc *VC) intrinsic(st *State, name string, args []Val, c *ssa.CallCommon, r
 		return vc.readFull(st, args[0], args[1]), true
 	case "(io.Reader).Read":
 		return vc.readerRead(st, args[0], args[1]), true
+	case "(io.Writer).Write":
+		return vc.writerWrite(st, args[0], args[1]), true
 	case "fmt.Errorf":
 		// %w operands keep errors.Is
 		var wraps []string
@@ -298,4 +340,27 @@ func (vc *VC) sortSearch(st *State, n Val, f Val, pos token.Pos) Val {
 	st.assume(vc, Imp(hi.pc, r2.S))
 	vc.searchRes = append(vc.searchRes, i)
 	return IntV(i, tInt)
+}
+
+// writerWrite: ghost output stream per writer id. G_wlen[w] bytes have been accepted so far, G_wdata[w][i] is byte i.
+// Write(p) accepts a prefix of p; it accepts all of p iff it returns a nil error (io.Writer contract).
+func (vc *VC) writerWrite(st *State, w Val, p Val) Val {
+	wl := vc.heapGet(st, "G_wlen", "(Array Int Int)")
+	wd := vc.heapGet(st, "G_wdata", "(Array Int (Array Int Int))")
+	cur := vc.name("wlen", "Int", Sel(wl, w.S))
+	st.assume(vc, Le("0", cur))
+	n := vc.fresh("wn", "Int")
+	err := vc.fresh("werr", "Int")
+	st.assume(vc, And(Le("0", n), Le(n, p.Len), Eq(Eq(err, "0"), Eq(n, p.Len))))
+	st.assume(vc, Or(Eq(err, "0"), And(Gt(err, "0"), Le(err, Add(st.alloc, "1")))))
+	st.alloc = vc.name("alloc", "Int", Add(st.alloc, "1"))
+	h := vc.byteHeapGet(st)
+	src := vc.name("src", "(Array Int Int)", Sel(h, p.Reg))
+	old := vc.name("oldw", "(Array Int Int)", Sel(wd, w.S))
+	na := vc.fresh("wd", "(Array Int Int)")
+	vc.define(fmt.Sprintf("(forall ((i Int)) (! (= (select %s i) (ite (and (<= %s i) (< i (+ %s %s))) (select %s (+ %s (- i %s))) (select %s i))) :pattern ((select %s i))))",
+		na, cur, cur, n, src, p.Off, cur, old, na))
+	vc.heapSet(st, "G_wdata", "(Array Int (Array Int Int))", Sto(wd, w.S, na))
+	vc.heapSet(st, "G_wlen", "(Array Int Int)", Sto(wl, w.S, Add(cur, n)))
+	return Val{K: KTuple, Fs: []Val{IntV(n, tInt), IntV(err, tErr)}}
 }
